@@ -68,6 +68,88 @@ class OptionAppend(Contract):
         return {'string_always_appended': z3.BoolVal(ok)}
 
 
+SS = z3.SeqSort(T.Str)
+# the first k elements of a list of strings, one after the other
+PRE = T.RecDef('FIRST_K', [SS], SS, lambda xs: z3.Empty(SS), lambda xs, k, prev: z3.Concat(prev, z3.Unit(xs[k])))
+
+
+class OptionCollect(Contract):
+    """option_list.collect: every string handed over (directly or inside a list) is appended, in order -- including
+    the empty string, which is an argument like any other; None is skipped."""
+    target = 'bfg9000/options.py::option_list.collect'
+    properties = ('C01', 'C02')
+    STRS = ('seq', 'str')
+
+    def cases(self):
+        return ['string', 'none', 'strings']
+
+    def params(self, cx, case):
+        old = z3.Const('options', z3.SeqSort(T.Str))
+        cx.ghost('old', old)
+        selfv = Obj(O.option_list, {'_options': PList(None, old, 'str')})
+        if case == 'string':
+            return {'self': selfv, 'args': (cx.str('option_string'),)}
+        if case == 'none':
+            return {'self': selfv, 'args': (None,)}
+        return {'self': selfv, 'args': (PList(None, z3.Const('given', z3.SeqSort(T.Str)), 'str'),)}
+
+    def new_seq(self, a):
+        return MD.list_to_seq(None, a.self.attrs['_options'], 'str')
+
+    def ensures(self, a, r):
+        x = a.args[0]
+        if x is None:
+            return {'none_is_skipped': self.new_seq(a) == a.old}
+        if isinstance(x, PList):
+            return {'every_string_appended_in_order': self.new_seq(a) == z3.Concat(a.old, PRE(x.e, z3.Length(x.e)))}
+        return {'string_appended_even_if_empty': self.new_seq(a) == z3.Concat(a.old, z3.Unit(MD.sym_str(x)))}
+
+    def apply_at_call(self, I, bound, site, frame):
+        args = bound['args']
+        if len(args) == 1 and isinstance(args[0], Sym) and args[0].ty == 'str' and isinstance(I.active, OptionCollect):
+            # the recursive call on one element of the list: the 'string' case of this contract
+            lst = bound['self'].attrs['_options']
+            e = MD.list_to_seq(I, lst, 'str')
+            bound['self'].attrs['_options'] = PList(None, z3.Concat(e, z3.Unit(args[0].e)), 'str')
+            return None
+        from pyvc.interp import InlineInstead
+        raise InlineInstead()
+
+    def loops(self):
+        def inv(I, loc, i, seq):
+            a = self.cur
+            cur = MD.list_to_seq(I, loc['self'].attrs['_options'], 'str')
+            return {'appended_so_far': cur == z3.Concat(a.old, PRE(seq.e, i))}
+
+        def havoc_obj(I, nm, o):
+            if nm == 'self':
+                o.attrs['_options'] = PList(None, T.fresh('h_options', z3.SeqSort(T.Str)), 'str')
+                return
+            from pyvc.interp import OutOfSubset
+            raise OutOfSubset('loop mutates %s' % nm)
+        from pyvc.contract import LoopInv
+        return {('option_list.collect', 2): LoopInv(inv, var_types={'j': 'str', 'i': ('list', 'str')}, havoc_obj=havoc_obj)}
+
+    def native_check(self, case, raw):
+        if case != 'strings':
+            return None
+        ol = O.option_list(['-first'])
+        ol.collect(list(raw['xs']))
+        got = list(ol)
+        if got != ['-first'] + list(raw['xs']):
+            return {'contract': type(self).__name__, 'target': self.target, 'case': case, 'input': raw,
+                    'clause': 'every_string_appended_in_order', 'got': got}
+        return True
+
+    def native_inputs(self, case, alphabet, maxlen, rng, extra=0):
+        if case != 'strings':
+            return
+        import itertools as _it
+        for n in range(0, 4):
+            for t in _it.product(['', '-I', 'a b', '-I'], repeat=n):
+                yield {'xs': list(t)}
+
+
 # ---- bounded: order of forwarded static libraries on the final link line ------------------------------------------
 
 class FakeLib:
@@ -196,5 +278,128 @@ class LocalRpath(Bounded):
         return True
 
 
+# ---- generated library DAGs built with the real toolchain and run in place / moved / installed (bounded) -----------
+
+import os as _os
+
+DAGS = {
+    # name: (build.bfg body, {file: text}, [executables relative to builddir], install?)
+    'static-chain-package': ("""
+from bfg9000 import options as opts
+from bfg9000.packages import CommonPackage
+libm = CommonPackage('m', format=env.target_platform.object_format, link_options=opts.option_list(opts.lib('m')))
+b = static_library('sub/b/b', ['b.c'], packages=[libm])
+a = static_library('a/a', ['a.c'], libs=[b])
+exe = executable('bin/exe', ['main.c'], libs=[a])
+""", {'b.c': '#include <math.h>\ndouble b_fn(double x) { return pow(x, 2.0) + cos(x); }\n',
+      'a.c': 'double b_fn(double); double a_fn(double x) { return b_fn(x); }\n',
+      'main.c': 'double a_fn(double); int main(int c, char **v) { return a_fn(c + 1.0) > 3.0 ? 0 : 1; }\n'},
+                             ['bin/exe'], False),
+    'nested-shared': ("""
+s = shared_library('sub/core/core', ['s.c'])
+exe = executable('bin/exe', ['main.c'], libs=[s])
+top = executable('top', ['main.c'], libs=[s])
+""", {'s.c': 'int s_fn(void) { return 5; }\n', 'main.c': 'int s_fn(void); int main(void) { return s_fn() - 5; }\n'},
+                      ['bin/exe', 'top'], True),
+    'shared-behind-static': ("""
+s = shared_library('deep/two/s', ['s.c'])
+a = static_library('libs/a', ['a.c'], libs=[s])
+exe = executable('bin/exe', ['main.c'], libs=[a])
+install(exe)
+""", {'s.c': 'int s_fn(void) { return 5; }\n', 'a.c': 'int s_fn(void); int a_fn(void) { return s_fn(); }\n',
+      'main.c': 'int a_fn(void); int main(void) { return a_fn() - 5; }\n'}, ['bin/exe'], True),
+    'diamond-shared': ("""
+base = shared_library('x/base', ['s.c'])
+mid1 = shared_library('y/mid1', ['m1.c'], libs=[base])
+mid2 = static_library('z/mid2', ['m2.c'], libs=[base])
+exe = executable('exe', ['main2.c'], libs=[mid1, mid2])
+install(exe)
+""", {'s.c': 'int s_fn(void) { return 5; }\n', 'm1.c': 'int s_fn(void); int m1(void) { return s_fn(); }\n',
+      'm2.c': 'int s_fn(void); int m2(void) { return s_fn(); }\n',
+      'main2.c': 'int m1(void); int m2(void); int main(void) { return m1() + m2() - 10; }\n'}, ['exe'], True),
+}
+
+
+class LinkRun(Bounded):
+    """Generated DAGs of static and shared libraries in nested, different output directories, configured by the tree
+    under test and built with the real cc/ar through GNU make: every executable links, runs from an unrelated working
+    directory, still runs after the whole build directory has been moved, and (where install() is used) the
+    installed program runs once the build directory is gone -- so every requirement of a static library (libraries,
+    packages) reached the final link and every run-time dependency was recorded."""
+    target = 'bfg9000/builtins/link.py::DynamicLink._fill_options'
+    properties = ('C14',)
+    reason = 'whole configure pipeline plus the external compiler, linker, make, doppel and patchelf: runtime contract'
+    native_chunk = 1
+
+    def native_inputs(self, case, alphabet, maxlen, rng, extra=0):
+        for k in DAGS:
+            yield {'dag': k}
+
+    def native_check(self, case, raw):
+        import shutil, subprocess, tempfile
+        from pyvc.interp import REPO
+        body, sources, exes, inst = DAGS[raw['dag']]
+        top = tempfile.mkdtemp(prefix='pyvc_link_')
+        try:
+            src, b = top + '/src', top + '/b'
+            _os.makedirs(src)
+            with open(src + '/build.bfg', 'w') as f:
+                f.write("project('p')\n" + body)
+            for n, t in sources.items():
+                with open(src + '/' + n, 'w') as f:
+                    f.write(t)
+            _os.makedirs(top + '/bin')
+            for name, mod in (('bfg9000', 'bfg9000.driver'), ('bfg9000-depfixer', 'bfg9000.depfixer')):
+                lp = top + '/bin/' + name
+                with open(lp, 'w') as f:
+                    f.write("#!/bin/sh\nPYTHONPATH=%s exec /venv/bin/python -c 'import sys; sys.argv[0] = \"%s\"; "
+                            "from %s import main; sys.exit(main())' \"$@\"\n" % (REPO, lp, mod))
+                _os.chmod(lp, 0o755)
+            env = dict(_os.environ, PATH=top + '/bin:/venv/bin:' + _os.environ['PATH'])
+            for k in ('MAKEFLAGS', 'DESTDIR', 'LD_LIBRARY_PATH'):
+                env.pop(k, None)
+
+            def run(cmd, **kw):
+                return subprocess.run(cmd, env=env, capture_output=True, text=True, timeout=300, **kw)
+            r = run([top + '/bin/bfg9000', 'configure-into', src, b, '--backend=make', '--no-resolve-packages',
+                     '--prefix=' + top + '/pre'])
+            if r.returncode != 0:
+                return self.fail(case, raw, 'configure_succeeds', stderr=r.stderr[-500:])
+            r = run(['make', '-C', b])
+            if r.returncode != 0:
+                return self.fail(case, raw, 'every_target_links_with_the_real_toolchain', output=(r.stdout + r.stderr)[-700:])
+            for e in exes:
+                pr = run([b + '/' + e], cwd='/')
+                if pr.returncode != 0:
+                    return self.fail(case, raw, 'runs_in_place_from_another_directory', exe=e, exit=pr.returncode,
+                                     stderr=pr.stderr[-300:])
+            if inst and 'install(' in body:
+                r = run(['make', '-C', b, 'install'])
+                if r.returncode != 0:
+                    return self.fail(case, raw, 'install_succeeds', output=(r.stdout + r.stderr)[-500:])
+            moved = top + '/moved elsewhere'
+            _os.rename(b, moved)
+            for e in exes:
+                pr = run([moved + '/' + e], cwd='/')
+                if pr.returncode != 0:
+                    return self.fail(case, raw, 'runs_after_the_build_directory_was_moved', exe=e, exit=pr.returncode,
+                                     stderr=pr.stderr[-300:])
+            if inst and 'install(' in body:
+                shutil.rmtree(moved)
+                for e in exes:
+                    found = [_os.path.join(dp, f) for dp, dn, fn in _os.walk(top + '/pre/bin') for f in fn
+                             if f == _os.path.basename(e)]
+                    if len(found) != 1:
+                        return self.fail(case, raw, 'installed_program_runs_without_the_build_directory', exe=e,
+                                         installed=found)
+                    pr = run([found[0]], cwd='/')
+                    if pr.returncode != 0:
+                        return self.fail(case, raw, 'installed_program_runs_without_the_build_directory', exe=e,
+                                         exit=pr.returncode, stderr=pr.stderr[-300:])
+            return True
+        finally:
+            shutil.rmtree(top, ignore_errors=True)
+
+
 def registry():
-    return [OptionAppend(), LinkOrder(), LocalRpath()]
+    return [OptionAppend(), OptionCollect(), LinkOrder(), LocalRpath(), LinkRun()]
